@@ -256,3 +256,9 @@ pub fn vx_saturating_sub(a: usize, b: usize) -> (r: usize)
 // quick vacuity twin: stands for the (irrelevant) function body after the entry reachability probe
 #[verifier::external_body]
 pub fn vx_arbitrary<T>() -> (r: T) { unimplemented!() }
+
+// `unreachable!()` / `panic!()` in a function that has no way to report a panic: must be provably unreachable
+#[verifier::external_body]
+pub fn vx_unreachable() -> (r: !)
+    requires false
+{ unimplemented!() }
